@@ -250,7 +250,9 @@ fn flatten_case(src: &mut Src, ctx: &mut Ctx) -> Result<(), String> {
             layout.elems.push(raw::Element { net: None, layer: keys[*l], purpose: raw::LayerPurpose::Drawing, inner: s.to_raw() });
         }
         for (k, (t, pl)) in c.insts.iter().enumerate() {
-            let angle = if pl.o.rot == 0 && pl.none_angle { None } else { Some(pl.o.angle()) };
+            // the same orientation spelled with whole turns added or taken away (-90 for 270, 450 for 90, -360 for 0), by content
+            let turns = [0.0, 0.0, -1.0, 1.0, 0.0, -2.0][(k + i + (pl.loc.0.unsigned_abs() as usize)) % 6];
+            let angle = if pl.o.rot == 0 && pl.none_angle { None } else { Some(pl.o.angle() + 360.0 * turns) };
             layout.insts.push(raw::Instance { inst_name: format!("i{}", k), cell: ptrs[*t].clone(), loc: pt(pl.loc), reflect_vert: pl.o.refl, angle });
         }
         let mut cell = raw::Cell::from(layout);
@@ -364,9 +366,10 @@ fn general_flatten_case(src: &mut Src, ctx: &mut Ctx) -> Result<(), String> {
     // reference: compose in f64, outermost placement first
     let mut levels = vec![];
     for k in 1..=depth {
-        let angle = match src.weighted(&[3, 1]) {
+        let angle = match src.weighted(&[3, 1, 1]) {
             0 => 0.25 * src.below(1440) as f64,
-            _ => *src.pick(&[30.0, 45.0, 60.0, 135.0, 33.3, 90.0, 270.0]),
+            1 => src.below(18_000_000) as f64 / 10_000.0 - 720.0, // [-720, 1080): angles are not confined to one turn
+            _ => *src.pick(&[30.0, 45.0, 60.0, 135.0, 33.3, 90.0, 270.0, -30.0, -90.0, -270.0, -45.0, 405.0, -0.25]),
         };
         let refl = src.bool();
         let loc = (src.signed(50_000), src.signed(50_000));
